@@ -214,7 +214,7 @@ def canon_obs(o):
     return o
 
 
-FIELDS = ("fatal", "code", "ccat", "sents", "gst", "exit", "api", "api2", "apir", "rt", "rtcat")
+FIELDS = ("fatal", "code", "ccat", "sents", "gst", "exit", "api", "api2", "api3", "api4", "apir", "rt", "rtcat")
 
 
 def diff(obs, exp):
@@ -292,7 +292,7 @@ def selftest(R):
          lambda o: o.update(fatal=True)),
         ("CodeKept", lambda c: plain(c) and c["obs"]["code"] == "common.not_found",
          lambda o: o.update(code="common.unavailable", ccat="Unavailable", rt="common.unavailable", rtcat="Unavailable",
-                            exit=3, api="Unavailable", api2="Unavailable", apir="common.unavailable")),
+                            exit=3, api="Unavailable", api2="Unavailable", api3="Unavailable", api4="Unavailable", apir="common.unavailable")),
         ("SentinelKept", lambda c: plain(c) and c["obs"]["sents"] == ["canceled"], lambda o: o.update(sents=[], exit=1)),
         ("StatusKept", lambda c: plain(c) and c["obs"]["gst"] and not c["obs"]["code"] and not c["obs"]["sents"],
          lambda o: o.update(gst="", exit=1)),
